@@ -36,6 +36,10 @@ CONFIGS = {
                                       '-fno-sanitize-recover=undefined -fno-omit-frame-pointer'),
     'vg':     dict(cc='gcc',   flags='-O3 -g'),
     'tsan':   dict(cc='clang', flags='-O1 -g -fsanitize=thread'),
+    # release builds of downstream projects define NDEBUG
+    'ndebug': dict(cc='gcc', flags='-O3 -DNDEBUG'),
+    # plain char is unsigned on ARM, RISC-V, Xtensa, PowerPC: the same sources must behave identically
+    'uchar':  dict(cc='gcc', flags='-O2 -funsigned-char'),
     # the code path for hosts that are not known to be little-endian (byte-wise loads; correct on any host)
     'portable': dict(cc='gcc', flags=f'-O2 -include {VERIF}/harness/shim/be-belief.h'),
 }
